@@ -96,6 +96,27 @@ CHECKS.update({
    design_ref="DESIGN.md §3 C17"),
 })
 
+CHECKS.update({
+ "C04": dict(
+   category="exploration",
+   text="L0: the public RulesEngine on every single rule and every ordered pair over 13 cidr spellings x 20 client-random patterns x 2 actions (incl. malformed fields) plus seeded lists of 3-5 rules, each for 8 addresses x 7 client randoms (22M evaluations quick) against a reference evaluator written from CONFIGURATION.md with explicit EITHER zones; rules files through toml::from_str::<Settings> (order, unknown/missing action, non-TOML, missing file). L2: the real Core::listen on 127.0.0.1 and dual-stack [::] with deny/allow rule sets, rustls clients over IPv4 and IPv6: a denied peer must receive zero bytes before the close, an allowed one must complete the handshake; one-bit client-random mask rule (80/80) over >= 64 connections with the client's random read from its own ClientHello.",
+   note="Trusted: reference evaluator in harness/src/props/c04.rs; rustls as the client. QUIC wiring not exercised.",
+   technique="runtime monitoring: exhaustive small-scope differential oracle on the rules engine + byte tap on real loopback TLS connections",
+   design_ref="DESIGN.md §3 C04"),
+ "C05": dict(
+   category="exploration",
+   text="L0: the real TlsDemux built from generated certificates (one per name, so the served certificate identifies the host) for seeded configurations over names {a,b}^(1..3 labels) in the four host classes + alternative SNIs, every non-empty subset of listen protocols, reverse proxy on/off x 17 SNIs x every ALPN sequence of length <= 2/3 over {h3,h2,http/1.1,spdy,non-UTF-8} + absent, against a reference router (542k-2.7M selections); validation of duplicate/unloadable/garbage hosts; 8 threads selecting through the live RwLock while reloads alternate between two configurations and failing ones (every observation must match A or B as a whole; a failed reload must change nothing). L2: rustls handshakes against Core::listen with listen protocols {h1+h2, h1, h2}: certificate identity, negotiated ALPN, channel behaviour probe (407 / ping 200 / 1 MiB download), refusal without certificate for unknown/no SNI, h3-only and unsupported ALPN.",
+   note="Trusted: reference router in harness/src/props/c05.rs; rustls/h2 clients. QUIC listener not exercised.",
+   technique="runtime monitoring: differential oracle on the real demultiplexer + concurrent reload stress with whole-configuration consistency check + loopback TLS probes",
+   design_ref="DESIGN.md §3 C05"),
+ "C15": dict(
+   category="fault_enumeration",
+   text="The real socks5_client::connect over an in-memory duplex against a scripted server: seeded credentials (0..600 bytes, multi-byte UTF-8, extended-auth value sets), destinations (IPv4/IPv6/domains of 0..300 bytes) x server behaviours (method 0/2/0x80/0xff/unknown/non-offered, auth status, reply codes 0..9/0xff, bound ATYP 1/3/4/9, truncation at a random byte, 0-2 cuts or byte-at-a-time); every client message is parsed in lock-step by an independent RFC 1928/1929/extended-auth parser (length octets, TERM, ATYP/port), and the client's conclusion is compared with the reference. Plus Basic-credential splitting through the real make_auth/make_extended_auth, RFC 1928 section 7 wrap/unwrap on a real loopback UDP association incl. hostile datagrams, and reply-code mapping to 502/301/302/300 through the real tunnel with forward_protocol=socks5 and a scripted TCP server.",
+   note="Trusted: the independent parser in harness/src/props/c15.rs. Zero-length user/password/domain are EITHER.",
+   technique="runtime monitoring: lock-step protocol parser at a scripted SOCKS5 server + fault/segmentation injection",
+   design_ref="DESIGN.md §3 C15"),
+})
+
 NOT_YET = "check not built yet in this session (designed in DESIGN.md §3; harness work in progress)"
 
 def main():
